@@ -412,6 +412,16 @@ let handle (case : string) (out : string) : unit =
        count ("violated:" ^ pid_name (rrule_prop r) ^ ":" ^ name);
        report_fail (pid_name (rrule_prop r)) name case
          (Printf.sprintf "event %d: %s" (int_of_nat step) (try List.nth (String.split_on_char ';' out) (int_of_nat step) with _ -> "?")));
+  (* sweep order / fresh ring view after set_offline (Model/FdlSweep.v) *)
+  (let seen = Hashtbl.create 2 in
+   List.iter (fun (step, r) ->
+     let name = (match r with P12_sweep_order -> "sweep_order" | P12_offline_forgets_ring -> "offline_forgets_ring") in
+     if not (Hashtbl.mem seen name) then begin
+       Hashtbl.add seen name ();
+       count ("violated:" ^ pid_name (srule_prop r) ^ ":" ^ name);
+       report_fail (pid_name (srule_prop r)) name case
+         (Printf.sprintf "event %d: %s" (int_of_nat step) (try List.nth (String.split_on_char ';' out) (int_of_nat step) with _ -> "?"))
+     end) (smonitor p (monitor_events mevents)));
   if violated = [] then count "monitors:ok"
   else begin
     let seen = Hashtbl.create 8 in
